@@ -471,6 +471,44 @@ End Acq.
 
 (* ---------- do_call of an acquire ------------------------------------------------------ *)
 
+Lemma acquire_begin s0 t o m blk tm poll skip :
+  t_pc (thr s0 t) = PIdle -> dead s0 (t_proc (thr s0 t)) = false ->
+  o_proc (objs s0 o) = t_proc (thr s0 t) ->
+  (forall d q, fdown s0 d = Some q -> (d < nextfd s0)%nat) ->
+  let b' := fst (normalise (objs s0 o) blk tm) in
+  let tm' := snd (normalise (objs s0 o) blk tm) in
+  exists s1 a dl,
+    (forall f, do_call (S f) s0 t (CAcq o m blk tm poll skip) = run_alone f s1 t) /\
+    do_call 0 s0 t (CAcq o m blk tm poll skip) = (pop_prog s0 t [CAcq o m blk tm poll skip], ROutOfFuel) /\
+    Phase s0 t o m b' tm' poll skip s1 /\ t_pc (thr s1 t) = PTLAcq a dl /\ now s1 = now s0.
+Proof.
+  intros Hpc Hal Hpr Hfo b' tm'. unfold do_call.
+  assert (Hcd : call_done (pop_prog s0 t [CAcq o m blk tm poll skip]) t = false).
+  { unfold call_done. cbn. rewrite upd_same. cbn. now rewrite Hpc. }
+  assert (Hal' : is_dead (pop_prog s0 t [CAcq o m blk tm poll skip]) t = false).
+  { unfold is_dead. cbn. rewrite upd_same. cbn. exact Hal. }
+  assert (En : enabled (pop_prog s0 t [CAcq o m blk tm poll skip]) t = true).
+  { unfold enabled. rewrite Hal'. cbn. rewrite upd_same. cbn. now rewrite Hpc. }
+  set (a0 := mkaloc o m b' tm' poll skip 0).
+  set (dl0 := if b' then match tm' with TVal n => Some (now s0 + n) | _ => None end else None).
+  exists (set_pc (pop_prog (pop_prog s0 t [CAcq o m blk tm poll skip]) t []) t (PTLAcq a0 dl0)), a0, dl0.
+  split; [|split; [unfold run_alone; rewrite Hcd; reflexivity|]].
+  - intros f. rewrite run_alone_step by assumption.
+    rewrite (step_idle _ _ (CAcq o m blk tm poll skip) []);
+      [|assumption|cbn; rewrite upd_same; cbn; exact Hpc|cbn; rewrite upd_same; reflexivity].
+    unfold begin_call. cbn. rewrite !upd_same. cbn. rewrite Hpr, Nat.eqb_refl.
+    rewrite (surjective_pairing (normalise (objs s0 o) blk tm)). fold b' tm'. reflexivity.
+  - split; [|split; [cbn; rewrite upd_same; reflexivity|reflexivity]].
+    eapply Ph1.
+    + cbn. rewrite !upd_same. cbn. reflexivity.
+    + repeat split.
+    + constructor; cbn; auto; try discriminate.
+      * intros t' Hn. rewrite !upd_other; auto.
+      * intros d Hd _. destruct (fdown s0 d) as [q|] eqn:E; auto. apply Hfo in E. lia.
+    + reflexivity.
+    + unfold time1. cbn. repeat split; try lia. destruct b'; [destruct tm'|]; cbn; lia.
+Qed.
+
 Theorem do_acquire_outcome s0 t o m blk tm poll skip fuel :
   t_pc (thr s0 t) = PIdle -> dead s0 (t_proc (thr s0 t)) = false ->
   o_proc (objs s0 o) = t_proc (thr s0 t) ->
@@ -481,27 +519,9 @@ Theorem do_acquire_outcome s0 t o m blk tm poll skip fuel :
   let res := do_call fuel s0 t (CAcq o m blk tm poll skip) in
   Outcome s0 t o m b' tm' poll (fst res) (snd res).
 Proof.
-  intros Hpc Hal Hpr Hh Hfo b' tm' res. unfold res, do_call.
-  assert (Hcd : call_done (pop_prog s0 t [CAcq o m blk tm poll skip]) t = false).
-  { unfold call_done. cbn. rewrite upd_same. cbn. now rewrite Hpc. }
-  destruct fuel as [|f]; [unfold run_alone; rewrite Hcd; left; reflexivity|].
-  assert (Hal' : is_dead (pop_prog s0 t [CAcq o m blk tm poll skip]) t = false).
-  { unfold is_dead. cbn. rewrite upd_same. cbn. exact Hal. }
-  assert (En : enabled (pop_prog s0 t [CAcq o m blk tm poll skip]) t = true).
-  { unfold enabled. rewrite Hal'. cbn. rewrite upd_same. cbn. now rewrite Hpc. }
-  rewrite run_alone_step; auto.
-  rewrite (step_idle _ _ (CAcq o m blk tm poll skip) []); auto.
-  2:{ cbn. rewrite upd_same. cbn. exact Hpc. }
-  2:{ cbn. rewrite upd_same. reflexivity. }
-  apply (acq_run s0 t o m b' tm' poll skip); auto.
-  unfold begin_call. cbn. rewrite !upd_same. cbn. rewrite Hpr, Nat.eqb_refl.
-  fold b' tm'. destruct (normalise (objs s0 o) blk tm) as [bb tt] eqn:En2. cbn in b', tm'. subst b' tm'.
-  eapply Ph1.
-  - cbn. rewrite !upd_same. cbn. reflexivity.
-  - repeat split.
-  - constructor; cbn; auto; try discriminate.
-    + intros t' Hn. rewrite !upd_other; auto.
-    + intros d Hd _. destruct (fdown s0 d) as [q|] eqn:E; auto. apply Hfo in E. lia.
-  - reflexivity.
-  - unfold time1. cbn. repeat split; try lia. destruct bb; [destruct tt|]; cbn; lia.
+  intros Hpc Hal Hpr Hh Hfo b' tm' res. unfold res.
+  destruct (acquire_begin s0 t o m blk tm poll skip Hpc Hal Hpr Hfo) as (s1 & a & dl & E1 & E0 & P & _).
+  destruct fuel as [|f].
+  - rewrite E0. left. reflexivity.
+  - rewrite E1. apply (acq_run s0 t o m b' tm' poll skip); auto.
 Qed.
